@@ -22,8 +22,12 @@ VERIF = os.path.dirname(os.path.dirname(os.path.abspath(__file__)))
 REPO = os.environ.get("VERIF_REPO", "/repo")
 LEAN = os.path.join(VERIF, "lean")
 BUILD = os.environ.get("VERIF_BUILD", os.path.join(VERIF, "build"))
-REPLAYS = os.path.join(VERIF, "replays")
-EVID = os.path.join(VERIF, "evidence")
+# evidence/ and replays/ of /verif are only written by runs against /repo itself; a run against another tree
+# (VERIF_REPO=<scratch worktree>: seeded changes, candidate fixes) writes them under its build directory, so that
+# the committed evidence can never come from a mutated tree
+_OWN = os.path.realpath(REPO) == "/repo"
+REPLAYS = os.environ.get("VERIF_REPLAYS") or (os.path.join(VERIF, "replays") if _OWN else os.path.join(BUILD, "replays"))
+EVID = os.environ.get("VERIF_EVIDENCE") or (os.path.join(VERIF, "evidence") if _OWN else os.path.join(BUILD, "evidence"))
 NCPU = os.cpu_count() or 4
 
 ALLOWED_AXIOMS = {"propext", "Classical.choice", "Quot.sound"}
